@@ -73,6 +73,10 @@ FINALS = {
     # protocol >= 4 resolves a dotted name as an attribute path: these start at allow-listed names
     "dotted-allowed-prefix": ("collections", "OrderedDict.fromkeys"),
     "dotted-globals": ("argparse", "Namespace.__init__.__globals__"),
+    # members of an imported, not allow-listed module that *report* an allow-listed identity (__module__ / __qualname__ of
+    # collections.OrderedDict): a wrapper made with functools.wraps, and a plain re-export
+    "impostor": ("vp_sink", "masquerade"),
+    "reexport": ("vp_sink", "OrderedDictAlias"),
 }
 BARE_SPELLINGS = ("bare", "bare-inst", "bare-inst-proto2", "bare-sg-reduce", "bare-sg-obj", "bare-global-obj")
 ENTRIES = ["pickle.load", "pickle.loads", "_pickle.load", "_pickle.loads"]
@@ -116,6 +120,8 @@ def inner_payload(kind, final, torch):
         raise KeyError(kind)
     if kind == "bare":
         return b"c" + m.encode() + b"\n" + n.encode() + b"\n" + (b"(S'nested'\ntR." if final == "forbidden" else b")R.")
+    if final in ("impostor", "reexport"):
+        return None       # (a pickler writes such an object under the identity it reports: only hand-written spellings name it)
     buf = io.BytesIO()
     if kind == "legacy":
         torch.save(P(), buf, _use_new_zipfile_serialization=False)
